@@ -511,7 +511,7 @@ def operand_values(kind, rich):
             vals |= {x for x in (127, 128, 255, 256, 2 ** 31, 2 ** 32 - 1, 2 ** 53, 2 ** 53 + 1, 2 ** 63 - 1, 2 ** 63, 2 ** 64 - 1) if x < 2 ** w}
         return [[kind, str(v)] for v in sorted(vals)]
     if kind == "float64":
-        xs = [0.0, -0.0, 1.0, -1.0, 0.5, 1.5, -2.5, 5.0, 2.0 ** 53, 2.0 ** 53 + 2, -(2.0 ** 53), 9.223372036854775807e18, 1e300, -1e300, 5e-324,
+        xs = [0.0, -0.0, 1.0, -1.0, 0.5, -0.5, 1.5, -1.5, -2.5, 5.0, 2.0 ** 53, 2.0 ** 53 + 2, -(2.0 ** 53), 9.223372036854775807e18, 1e300, -1e300, 5e-324,
               255.0, 256.0, 127.0, 128.0, -128.0, 2147483648.0]
         if rich:
             xs += [float("inf"), float("-inf"), float("nan"), 1e-7, 2e-7, 0.1, 1.8446744073709552e19, 3.4028234663852886e38]
@@ -709,7 +709,7 @@ def arith_scenarios(ctx, rng, full):
     scs = []
     for i, (a, b) in enumerate(pairs):
         la, lb = wrap_operand(rng, a), wrap_operand(rng, b)
-        ops = [{"op": "binop", "o": o, "l": la, "r": lb} for o in ARITH_OPS + ["&&", "||"]]
+        ops = [{"op": "binop", "o": o, "l": la, "r": lb} for o in ARITH_OPS + ["&&", "||"] + CMP_OPS]
         scs.append({"id": "arith-%d" % i, "ops": ops, "pair": [a, b]})
     return scs
 
@@ -784,6 +784,16 @@ def monitor_arith(sc, g):
         v1, v2 = val(7), val(8)
         if not v1 or v1[1] != (a[1] and b[1]) or not v2 or v2[1] != (a[1] or b[1]):
             out.append(("logic", "%s && / || %s = %s %s" % (a, b, v1, v2)))
+    # comparisons (ops 9..14: < <= > >= == !=) where both operands denote their number exactly
+    xa, xb = exact_value(a), exact_value(b)
+    if xa is not None and xb is not None and in_c19_domain(a, b):
+        mixed = (a[0] in ("float64", "float32")) != (b[0] in ("float64", "float32"))
+        ok_exact = (not mixed) or all(abs(x) <= 2 ** 53 for x, leaf in ((xa, a), (xb, b)) if leaf[0] not in ("float64", "float32"))
+        if ok_exact:
+            want = [xa < xb, xa <= xb, xa > xb, xa >= xb, xa == xb, xa != xb]
+            got = [(val(9 + i) or [None, None])[1] for i in range(6)]
+            if got != want:
+                out.append(("comparison", "%s vs %s: < <= > >= == != give %s, the numbers compare %s" % (a, b, got, want)))
     return out
 
 def run_c19(ctx):
@@ -1326,6 +1336,19 @@ def run_c05(ctx):
         if not sc.get("no_oracle"):
             for i2, kind, det in pl.compare_spec(sc, g, l):
                 res.violations.append({"signature": "oracle:" + kind, "detail": det, "scenario": sc, "op_index": i2})
+    # (b') string literals that are byte strings: outside the model, checked on the real engine against the Go meaning
+    bsc = [gen_syntax.bytes_scenario(rng.fork(), "c05b-%d-%d" % (ctx.seed, i)) for i in range(ctx.n(150, 2000))]
+    for sc, g in zip(bsc, pl.run_go(bsc, jobs=ctx.jobs)):
+        res.evaluations += 1
+        rs = g.get("res", [])
+        res.count("byte-literal-scenarios")
+        if len(rs) < 3 or not rs[0].get("ok"):
+            res.violations.append({"signature": "monitor:byte-escape-literal-rejected", "scenario": sc, "detail": sc["ops"][0]["text"][:300]})
+            continue
+        matched = [x[0] for x in (rs[2].get("rules") or [])]
+        if (matched == ["B"]) != sc["expect_match"] or rs[2].get("out") not in ("ok", None, ""):
+            res.violations.append({"signature": "monitor:byte-string-literal-has-wrong-bytes", "scenario": sc,
+                                   "detail": "expected the condition to hold by Go's string semantics; matched %s, outcome %s: %s" % (matched, rs[2].get("out"), sc["ops"][0]["text"][:300])})
     # (c) operator grid
     grid = Result()
     scs = arith_scenarios(ctx, Rng(ctx.seed * 2750159 + 55), ctx.tier == "thorough")
@@ -1340,6 +1363,99 @@ def run_c05(ctx):
     for k, v in grid.distribution.items():
         res.count("grid:" + k, v)
     res.count("grid:operand-pairs", len(scs))
+    return res
+
+
+# ---- C18: JSON rule documents --------------------------------------------------------------------------
+
+def run_c18(ctx):
+    import gen_json
+    res = Result()
+    res.rule = ("well-typed generated rules re-expressed as JSON in every style (plain strings, operator objects, obj/const wrappers, bare numbers and "
+                "booleans, n-ary operand lists, single-operand not, call objects, nested to any depth; descriptions and string constants over quotes, "
+                "backslashes, control characters, non-ASCII printable and unprintable code points; numbers up to 1e19 and down to 1e-7) and malformed "
+                "documents (33 kinds). Pass 1: the Lean translator model and the meaning Sem(j) (operator tree read directly, printed with every grouping "
+                "explicit). Pass 2 on the real code: JSONResource.Load + BuildRuleFromResource of the document into K, the plain GRL builder on the "
+                "fully parenthesised Sem text into S; monitors: translator text = model text byte for byte (correspondence), the text is accepted by the "
+                "builder, name/description/salience in K are the document's, runs of K and S on the same facts agree (outcome, facts, fired rules), "
+                "malformed documents are rejected with an error and without panic; non-trivial = distinct documents whose rules fired")
+    rng = Rng(ctx.seed * 86028121 + 18)
+    n = ctx.n(900, 15000)
+    scs = corpus(ctx.prop)
+    for i in range(n):
+        r = rng.fork()
+        scs.append(gen_json.malformed(r, "c18m-%d-%d" % (ctx.seed, i)) if i % 5 == 4 else gen_json.scenario(r, "c18-%d-%d" % (ctx.seed, i)))
+    # pass 1: the model alone
+    first = [{"id": sc["id"], "ops": [{"op": "jsonbuild", "lib": "L", "kb": "K", "json": sc["json"]}]} for sc in scs]
+    l1 = pl.run_lean(first, jobs=ctx.jobs)
+    full = []
+    for sc, l in zip(scs, l1):
+        m = (l.get("res") or [{}])[0]
+        ops = [{"op": "jsonbuild", "lib": "L", "kb": "K", "json": sc["json"]}]
+        if m.get("tok") and m.get("semOk") and not sc.get("malformed"):
+            ops.append({"op": "build", "lib": "L", "kb": "S", "wm": False, "text": m.get("semText", ""), "front": True, "ftext": [], "expect_ok": True})
+            ops.append({"op": "inst", "lib": "L", "kb": "K", "as": "k"})
+            ops.append({"op": "inst", "lib": "L", "kb": "S", "as": "s"})
+            for fi, fx in enumerate(sc.get("facts", [])):
+                for who in ("k", "s"):
+                    ops.append({"op": "exec", "inst": who, "facts": fx, "max": 6, "retErr": False, "cancelAt": None, "listeners": 0,
+                                "twin": "f%d" % fi, "det": sc.get("det", False)})
+        full.append(dict(sc, ops=ops, model1=m))
+    for sc, g, l, status in front_sweep(ctx, res, full, "C18"):
+        rs = g.get("res", [])
+        r0 = rs[0] if rs else {}
+        m0 = sc["model1"]
+        res.count("flags:" + ",".join(sc.get("flags", [])) if sc.get("flags") else "flags:none")
+        if "panic" in r0:
+            res.violations.append({"signature": "monitor:translator-panics", "detail": "%s on %r" % (r0["panic"], sc["json"][:300]), "scenario": sc})
+            continue
+        if sc.get("malformed"):
+            res.count("malformed:" + sc["malformed"])
+            if r0.get("tok") or r0.get("ok"):
+                res.violations.append({"signature": "monitor:malformed-document-accepted", "scenario": sc,
+                                       "detail": "%s: the translator returned text %r (builder ok=%s) for %r" % (sc["malformed"], (r0.get("text") or "")[:200], r0.get("ok"), sc["json"][:300])})
+            continue
+        if not r0.get("tok"):
+            res.violations.append({"signature": "monitor:valid-document-rejected-by-translator", "detail": "%s on %r" % (r0.get("why"), sc["json"][:400]), "scenario": sc})
+            continue
+        if not r0.get("ok"):
+            res.violations.append({"signature": "monitor:translated-text-rejected-by-builder", "scenario": sc,
+                                   "detail": "%s; text %r" % (r0.get("builderr"), (r0.get("text") or "")[:400])})
+            continue
+        have = {x[1]: x for x in r0.get("rules", []) if not x[4]}
+        for mt in sc.get("meta", []):
+            x = have.get(mt["name"])
+            if x is None:
+                res.violations.append({"signature": "monitor:rule-missing", "detail": mt["name"], "scenario": sc})
+            elif str(x[2]) != str(mt["sal"]) or x[3] != mt["desc"]:
+                res.violations.append({"signature": "monitor:name-description-salience-differ", "scenario": sc,
+                                       "detail": "rule %s: salience %s description %r, document says %s %r" % (mt["name"], x[2], x[3], mt["sal"], mt["desc"])})
+        if m0.get("astEq") is False:
+            res.violations.append({"signature": "monitor:grouping-differs-from-nesting", "scenario": sc,
+                                   "detail": "the parse of the translated text is not the operator tree (modulo grouping parentheses): %r" % (r0.get("text") or "")[:400]})
+        # K (translated) against S (meaning)
+        twins = {}
+        fired = False
+        for o, r in zip(sc["ops"], rs):
+            if o.get("op") == "build" and o.get("kb") == "S" and not r.get("ok"):
+                res.corr_details.append({"id": sc["id"], "status": "mismatch", "detail": "the explicit-grouping text of the meaning does not build: %r" % o["text"][:300], "scenario": sc})
+                res.corr_broken = True
+            if o.get("op") == "exec" and "store" in r:
+                view = (json.dumps(r.get("out")), json.dumps(r.get("store")), [e[2] for e in (r.get("trace") or []) if e[0] == "x"])
+                fired = fired or bool(view[2])
+                if o["twin"] in twins:
+                    other = twins[o["twin"]]
+                    if o.get("det") and other != view:
+                        what = "outcome" if other[0] != view[0] else "facts" if other[1] != view[1] else "fired rules"
+                        res.violations.append({"signature": "monitor:translated-rule-means-something-else", "scenario": sc,
+                                               "detail": "translated text and operator tree differ in %s: fired %s vs %s; text %r" % (what, other[2], view[2], (r0.get("text") or "")[:300])})
+                else:
+                    twins[o["twin"]] = view
+        if fired and sc["json"] not in res._distinct:
+            res._distinct.add(sc["json"])
+            res.distinct_nontrivial += 1
+            if len(res.samples) < 4:
+                res.samples.append({"json": sc["json"][:400], "text": (r0.get("text") or "")[:400]})
     return res
 
 PROPS = {}
@@ -1368,3 +1484,4 @@ prop("C14", run=lambda ctx: run_engine_generic(ctx, mix=(("faulty", 6), ("wild",
 prop("C08", run=lambda ctx: run_engine_generic(ctx, owners=["C08", "C11"]))
 prop("C17", run=run_c17)
 prop("C05", run=run_c05)
+prop("C18", run=run_c18)
